@@ -316,3 +316,36 @@ func atoi(s string) int {
 	}
 	return n
 }
+
+// c05err: a statement text is scanned by the real Scanner (tokens with measured extents)
+// and parsed by ParseQuery; when the parse fails with a *ParseError its position, Found
+// text and message are recorded next to the tokens.  The judge decides whether the quoted
+// position is the line/column of the first character of the token the error names.
+func init() {
+	register("c05err", &Suite{Serial: true, Run: func(c M) M {
+		text := caseInput(c)
+		delete(c, "toks")
+		if list(c["inp"]) == nil {
+			c["inp"] = runeStrings(text)
+			delete(c, "bytes")
+		}
+		o := c05Lex(text, false)
+		var err error
+		if p := guard(func() { _, err = influxql.ParseQuery(text) }); p != "" {
+			o["parse_panic"] = p
+			return o
+		}
+		if err == nil {
+			o["parsed"] = true
+			return o
+		}
+		o["parsed"] = false
+		if pe, ok := err.(*influxql.ParseError); ok {
+			e := M{"line": pe.Pos.Line, "char": pe.Pos.Char, "found": pe.Found, "msg": pe.Message, "hasfound": pe.Message == ""}
+			o["perr"] = e
+		} else {
+			o["otherr"] = errStr(err)
+		}
+		return o
+	}})
+}
